@@ -422,7 +422,10 @@ class SInt:
 
     def to_bytes(self, length=1, byteorder="big", signed=False):
         if len(self.bits) > 8 * length:
-            raise OverflowError("int too big to convert")
+            # too big exactly when a bit beyond the requested width is set (decided under the path condition; forks otherwise)
+            high = bnot(ball([bnot(self.bit(i)) for i in range(8 * length, len(self.bits))]))
+            if bool(high):
+                raise OverflowError("int too big to convert")
         by = [SInt(tuple(self.bit(8 * i + j) for j in range(8))).n() for i in range(length)]
         if byteorder == "big":
             by.reverse()
@@ -683,6 +686,9 @@ class SLin:
         return v.__index__() if isinstance(v, SInt) else int(v)
 
     __int__ = __index__
+
+    def to_bytes(self, length=1, byteorder="big", signed=False):
+        return self.to_sint().to_bytes(length, byteorder, signed)
 
     def to_sint(self):
         """bit-vector form by column compression (3:2 counters); width capped by the interval bound"""
